@@ -1,9 +1,12 @@
 #!/bin/sh
-# Build the engine (dev + release profile) offline from files on disk.
+# Build the engine (dev + release profile) and the real rrss binary (for C20) offline from files on disk.
 set -e
-cd /verif/engine
 export CARGO_NET_OFFLINE=true
 unset RUSTFLAGS
+cd /verif/engine
 cargo build -q --bin vcheck
 cargo build -q --bin vcheck --release
+cd /repo
+cargo build -q --offline --bin rrss --target-dir /verif/target/cli
+cargo build -q --offline --bin rrss --target-dir /verif/target/cli --release
 echo "setup ok"
